@@ -90,7 +90,7 @@ class DefValidator(DefinitionDict):
             def_contents = def_entry.get_definition(def_tag, placeholder_value=placeholder,
                                                     return_copy_of_tag=True)
             if def_contents is not None:
-                if is_def_expand_tag and def_expand_group.sorted() != def_contents.sorted():
+                if is_def_expand_tag and def_expand_group._sorted(canonical=True) != def_contents._sorted(canonical=True):
                     def_issues += ErrorHandler.format_error(ValidationErrors.HED_DEF_EXPAND_INVALID,
                                                             tag=def_tag, actual_def=def_contents,
                                                             found_def=def_expand_group)
